@@ -128,16 +128,23 @@ const entryplus3Baggage uint64 = 8 + // fileid
 	16 + // name_handle
 	8 // pointer
 
+// EntCookie is the READDIR/READDIRPLUS cookie of the entry at offset off:
+// the offset just past it, where the enumeration resumes. (The entry's own
+// offset will not do: the first entry is at offset 0, and cookie 0 means
+// "start from the beginning", so a one-entry page would repeat for ever.)
+func EntCookie(off uint64) uint64 {
+	return off + DIRENTSZ
+}
+
 // XXX inode locking order violated
 func Apply(dip *inode.Inode, op *fstxn.FsTxn, start uint64,
 	dircount uint64, maxcount uint64,
 	f func(*inode.Inode, string, common.Inum, uint64)) bool {
 	var eof bool = true
 	var ip *inode.Inode
+	// start is a cookie from EntCookie (0 means from the beginning): the
+	// offset just past the entry it was issued for
 	var begin = uint64(start)
-	if begin != 0 {
-		begin += DIRENTSZ
-	}
 	// TODO: arbitrary estimate of constant XDR overhead
 	var n uint64 = uint64(64)
 	var dirbytes uint64 = uint64(0)
@@ -189,10 +196,8 @@ func Apply(dip *inode.Inode, op *fstxn.FsTxn, start uint64,
 func ApplyEnts(dip *inode.Inode, op *fstxn.FsTxn, start uint64, count uint64,
 	f func(string, common.Inum, uint64)) bool {
 	var eof bool = true
+	// start is a cookie from EntCookie (0 means from the beginning)
 	var begin = uint64(start)
-	if begin != 0 {
-		begin += DIRENTSZ
-	}
 	// TODO: this is supposed to track the size of the XDR-encoded reply in
 	// bytes, and we somewhat arbitrarily use 64 as the constant overhead
 	var n uint64 = uint64(64)
